@@ -75,12 +75,19 @@ PROPS = {
         "runs": {"quick": 2000000, "thorough": 50000000},
         "rule": "event programs as for C02/C03 x step schedules of dispatch_n_events(k), dispatch_events_until(t) with t below / at / "
                 "above the next timestamp or in the past, and add_event while paused (at the reported time, between, at the next "
-                "pending timestamp, later), then dispatch_all + finish; distinct = distinct program hash; non-trivial = a cut with "
-                ">= 2 events pending or an external add",
-        "fault_probes": ["external_add_while_paused", "cut_inside_tie_group", "cut_with_two_or_more_pending"],
-        "expected_probes": ["external_add_while_paused", "cut_inside_tie_group", "cut_with_two_or_more_pending"],
-        "components": {"real": ["des::runtime::{Runtime, Builder, RuntimeLimit, FutureEventSet}, des-cqueue (real code)"],
-                       "stub": ["Application / Event implementations: harness interpreter of the generated program"]},
+                "pending timestamp, later), or a Builder for another simulation configured and dropped while paused, then "
+                "dispatch_all + finish; distinct = distinct program hash; non-trivial = a cut with "
+                ">= 2 events pending or an external add. One program in ten is a network simulation (des::net) that is paused "
+                "with dispatch_events_until and fed with messages from outside (Runtime::add_message_onto, for the reported "
+                "instant or later); it is compared with the uninterrupted run that finds the same messages in its event set from "
+                "the start: same deliveries per module, same number of dispatched events, same end time",
+        "fault_probes": ["external_add_while_paused", "cut_inside_tie_group", "cut_with_two_or_more_pending", "message_injected_while_paused"],
+        "expected_probes": ["external_add_while_paused", "cut_inside_tie_group", "cut_with_two_or_more_pending",
+                            "message_injected_while_paused", "message_injected_for_the_reported_instant"],
+        "components": {"real": ["des::runtime::{Runtime, Builder, RuntimeLimit, FutureEventSet}, des-cqueue (real code)",
+                                "des::net (Sim, modules, gates, latency-only channels; one program in ten) (real code)"],
+                       "stub": ["Application / Event implementations: harness interpreter of the generated program",
+                                "scripted modules (network programs)"]},
         "assumptions": ["cqueue backend (default feature set)", "sampled programs and schedules, not exhaustive"],
     },
     "C11": {
